@@ -58,6 +58,9 @@ var realSpecials = []string{
 	"1.50", "00.5", "000123.4500", "0.00000000001", "123456789012345.678", "-2147483648.5", "4294967296.25",
 	"3.14159265358979323846264338327950288", "0.1", "0.3", "16777217.0", "9007199254740993.0", "32767.99999",
 	"9223372036854775807.0", "0.000000000000000000000000000001", "99999999999999999999.9",
+	// whole numbers beyond the 64-bit integers, written without a decimal point
+	"10000000000000000000", "-9223372036854775809", "18446744073709551616", "+9223372036854775808",
+	"340282350000000000000000000000000000000",
 }
 
 func digits(r *rand.Rand, n int) string {
